@@ -448,11 +448,9 @@ def run_case(case):
         # tests of its layer, so that subprocess finds nothing to run)
         owners = {}
         for tid, (ts, L) in tests.items():
-            if L is not None:
-                owners.setdefault(L, set()).add(tid.rsplit('.', 2)[0])
+            owners.setdefault(L or 'UNIT', set()).add(tid.rsplit('.', 2)[0])
         for m, node, L, lvl in vworld.iter_units(spec):
-            if L not in (None, 'UNIT'):
-                owners.setdefault(L, set()).add(m['name'])
+            owners.setdefault(L or 'UNIT', set()).add(m['name'])
         cands = sorted((L, mn, len(ms) == 1) for L, ms in owners.items()
                        for mn in ms
                        if any(t.startswith(mn + '.') for t in tids))
